@@ -197,7 +197,9 @@ class C19(runner.Check):
                 'TM.C19_retry_counts_raising_entry')
     rule = ('random decorated machine classes: every subset of {Tags, Error, Volatile, Retry} in random decorator order '
             '(Tags-before-Error excluded: TypeError) x {Machine, LockedMachine, HierarchicalMachine, '
-            'LockedHierarchicalMachine} x 2-4 top states (hierarchical: 0-3 children each, optional initial child) x '
+            'LockedHierarchicalMachine} x 2-4 top states (hierarchical: 0-3 children each, optional initial child, sometimes a '
+            'chain of initial children 3-4 levels deep) x states declared in the states list, later by full-path name with the '
+            'feature arguments as keywords, or later inside the parent scope x '
             'random feature arguments per state (tags — occasionally one list object shared by several states —, accepted, hook name, volatile class, retries, on_failure as '
             'callable or model method name) x auto_transitions/ignore_invalid_triggers/send_event x 1-3 models x '
             'histories of 3-20 steps with bursts of the same (reflexive) event, triggers during which an on_exit callback of the '
@@ -253,6 +255,12 @@ class C19(runner.Check):
             "that entry Error never sees it — mirrored by the model, not judged (C19_error_iff's hypothesis hwf)",
             "on a machine without Tags/Error a state must answer is_<name> as a state of the undecorated class with the "
             "same final flag does (normally AttributeError)",
+            "the features read self.name (scoped full name on hierarchical machines): an enter/exit the engine issues under "
+            "a scoped name that is no state of the machine is reported (oracle scoped-name); which states are entered "
+            "is otherwise the engine's business (C02/C03)",
+            "a state declared later by full-path name + keyword arguments or inside its parent's scope must behave as the "
+            "same state declared in the states list (the oracle only knows the description); such states are leaves, "
+            "not an initial child and not the machine's initial state",
             "edits of state.tags follow Python's aliasing: states that were handed one list object and were not declared "
             "accepted share it, so an in-place edit shows in all of them",
         ]
